@@ -172,6 +172,17 @@ impl Checker for C06 {
             }
             out.count("recognition_probes", 1);
         }
+        // ---- batches are released (and their loss split) only by a successful withdrawal, whose payout re-bases the
+        // accounted-for balance; a release anywhere else leaves its coins to be counted again
+        if !(step.ok() && matches!(step.rop, ROp::Withdraw { .. })) {
+            if let Some(h) = release_group(o0, o1).first() {
+                out.fail(v(
+                    "released-outside-withdrawal",
+                    format!("{}: batch {} became released in a transaction that is not a successful WithdrawUnbonded", step.desc(), h.batch_id),
+                ));
+                return;
+            }
+        }
         // ---- loss on unbonding stake is spread pro rata over the release group
         if step.ok() && matches!(step.rop, ROp::Withdraw { .. }) {
             // "the batches released together" are all the matured ones: a successful withdrawal leaves no batch
